@@ -54,4 +54,43 @@ CLAIMS['C14'] = {
     'technique': 'reader/writer key-table extraction and sibling agreement; attribute effect closures; alias analysis',
 }
 
+CLAIMS['C01'] = {
+    'text': 'PARTIAL: decides for all paths of GaussianMultivariate.sample that every output column has exactly num_rows entries '
+            '(length provenance through the helper that draws), that the output dict is assigned for every training column in '
+            'training order on every branch (definite assignment over zip(self.columns, self.univariates), co-appended in fit), '
+            'that each marginal quantile receives norm.cdf of the normal draw of the same column and that the fit-side scores '
+            'are norm.ppf of clipped CDF values (space-kind typing), and that the unconditional draw uses the fitted correlation '
+            'with zero mean. That sampled columns follow the fitted marginals / rank dependence is a law of random output and '
+            'is not decided.',
+    'note': NOTE,
+    'technique': 'kind systems by abstract interpretation (length, space), definite-assignment and co-append idioms',
+}
+CLAIMS['C02'] = {
+    'text': 'PARTIAL: decides, path by path, that the returned matrix is corr() of the normal scores followed by NaN->0, that the '
+            'ill-conditioned path (cond > 1/eps, direction and threshold checked) adds EPSILON*identity, that norm.ppf only '
+            'receives probabilities clipped strictly inside (0,1), that the matrix is labelled with the training columns in '
+            'the order of its data (axis-order provenance) and that fit assigns columns/univariates before the correlation of '
+            'the same table. Symmetry, range, PSD and equality with Pearson are semantics of pandas.corr and not decided.',
+    'note': NOTE,
+    'technique': 'path-sensitive stage provenance, space-kind and axis-order abstract interpretation, dominators',
+}
+CLAIMS['C12'] = {
+    'text': 'Decides the mechanism of conditional sampling for all inputs: conditioned columns are np.full(num_rows, given value); '
+            'every positional pairing on the conditional path joins vectors and labels of provably equal order (axis-order '
+            'provenance; this is the rule that exposed the fixed defect F2); the conditional mean and covariance have the '
+            'Schur-complement normal form over blocks taken with the right labels (symbolic block algebra, solve() accepted); '
+            'no array/Series-typed parameter is used as a truth value (F1); the caller\'s conditions are not written. The '
+            'law of the unconditioned columns is not decided.',
+    'note': NOTE,
+    'technique': 'axis-order provenance + symbolic block algebra normal form + alias analysis',
+}
+CLAIMS['C13'] = {
+    'text': 'PARTIAL: decides that density/CDF delegate to multivariate_normal.pdf/.cdf on kind-Z points with cov = fitted '
+            'correlation and zero mean, that log_probability_density is the np.log composition, that query columns are '
+            'aligned with the correlation for DataFrame/Series/array input (axis-order provenance, Series and array branches '
+            'of the container normalisation), and that no batch reduction couples rows. Numeric equality/monotonicity are not decided.',
+    'note': NOTE,
+    'technique': 'space-kind and axis-order abstract interpretation; structural container-normalisation check',
+}
+
 NOT_APPLICABLE = {}
